@@ -137,7 +137,8 @@ func Apply(fs FS, root string, o Op, seq int) error {
 		var neu []byte
 		for _, c := range []string{"A", "B", "Y"} {
 			if bytes.Contains(old, []byte(c+":"+marker)) {
-				neu = bytes.Replace(old, []byte(c+":"+marker), []byte(strings.ToLower(c)+":"+marker), 1)
+				// every occurrence: the marker sits in the Spec-level edits and in each device's
+				neu = bytes.ReplaceAll(old, []byte(c+":"+marker), []byte(strings.ToLower(c)+":"+marker))
 			}
 		}
 		if neu == nil {
